@@ -38,7 +38,8 @@ Definition guard_class (fx : variant) (c : case) : N :=
   let fuel := fuel_of p in
   let falsy := negb (fx_falsy fx) && match c_obs c with Some cfg => negb (dest_truthy p cfg) | None => false end in
   if falsy then 1%N
-  else if negb (fx_cfg fx) && negb (input_consistent fuel p (c_input c)) then 2%N else 0%N.
+  else if negb (fx_cfg fx) && negb (input_consistent fuel p (c_input c)) then 2%N
+  else if negb (fx_envmap fx) && negb (osenv_clean (c_input c)) then 3%N else 0%N.
 
 Definition judge1_v (fx : variant) (c : case) : verdict :=
   let p := c_parser c in
@@ -60,9 +61,10 @@ Definition judge1_v (fx : variant) (c : case) : verdict :=
 Definition judge1 := judge1_v orig.
 Definition judge (cs : list case) := judge_all judge1 cs.
 
-(* after fixes/C17-falsy-subcommand-name-keeps-all-sections.patch: no class 1, theorem C17_fixed_one_selected *)
-Definition judge_fixed_falsy (cs : list case) := judge_all (judge1_v {| fx_falsy := true; fx_cfg := false |}) cs.
-(* after fixes/C17-cfg-naming-other-subcommand-drops-settings.patch: no class 2 *)
-Definition judge_fixed_cfg (cs : list case) := judge_all (judge1_v {| fx_falsy := false; fx_cfg := true |}) cs.
-(* after both: no finding class left, any recurrence is a VIOLATION *)
-Definition judge_fixed_both (cs : list case) := judge_all (judge1_v {| fx_falsy := true; fx_cfg := true |}) cs.
+(* any tree: tie/props/c17.py: translate() recognises which fixes the tree under test has and passes the
+   variant, e.g. `judge_v {| fx_falsy := true; fx_cfg := true; fx_envmap := false |}`.  A fix in the tree
+   removes the class of its finding: a recurrence is then a VIOLATION.
+     fx_falsy  : fixes/C17-falsy-subcommand-name-keeps-all-sections.patch   (class 1; /repo cc83855)
+     fx_cfg    : fixes/C17-cfg-naming-other-subcommand-drops-settings.patch (class 2; /repo efb952a)
+     fx_envmap : fixes/C17-env-mapping-ignored-by-handle-subcommands.patch  (class 3) *)
+Definition judge_v (fx : variant) (cs : list case) := judge_all (judge1_v fx) cs.
